@@ -75,6 +75,21 @@ def parseXStep (s : String) : Option XStep :=
     | _ => (parseStep t).map .base
   | _ => none
 
+/-- `T;f:<offset>;i:..;o:..`: the offset of the transaction an `initial_tx` installs (0 without `f:`) -/
+def parseXElem (s : String) : Option XElem :=
+  match s.splitOn ";" with
+  | "T" :: parts =>
+    let offs := parts.filterMap fun p => match p.splitOn ":" with
+      | ["f", h] => scalar? h
+      | _ => none
+    let rest := parts.filter fun p => !(p.startsWith "f:")
+    (parseXStep (";".intercalate ("T" :: rest))).map fun st => ⟨st, offs.headD 0⟩
+  | _ => (parseXStep s).map fun st => ⟨st, 0⟩
+
+def parseXElems (s : String) : Option (List XElem) :=
+  let inner := (s.drop 1).dropEnd 1 |>.toString
+  if inner.isEmpty then some [] else (inner.splitOn ",").mapM parseXElem
+
 def parseXSteps (s : String) : Option (List XStep) :=
   let inner := (s.drop 1).dropEnd 1 |>.toString
   if inner.isEmpty then some [] else (inner.splitOn ",").mapM parseXStep
@@ -285,26 +300,26 @@ def handle (st : St) (args : List String) (impl : String) : St × Verdict :=
       | _ => (st, cmpSpec "err" impl)
     | none => (st, .unknown)
   -- run `exchange`: element lists with `initial_tx`, every permutation
-  | ["xbuild", fee, ex, steps] => match nat? fee, scalar? ex, parseXSteps steps with
+  | ["xbuild", fee, ex, steps] => match nat? fee, scalar? ex, parseXElems steps with
     | some fee, some ex, some steps =>
-      match xTransactionWithKernel steps fee ex with
+      match xTransactionWithKernelO steps fee ex with
       | some tx => (st, cmpSpec
           s!"{toHex (beBytes 32 tx.offset)} {showOpenings tx.ins} {showOpenings tx.outs} {(txValidate tx).show}" impl)
       | none => (st, cmpSpec "err" impl)
     | _, _, _ => (st, .unknown)
-  | ["xpartial", steps] => match parseXSteps steps with
+  | ["xpartial", steps] => match parseXElems steps with
     | some steps =>
-      let (ins, outs, bs) := xPartialTransaction [] [] steps
+      let (ins, outs, bs, off) := xPartialTransactionO [] [] 0 steps
       match bs with
-      | .ok bs => (st, cmpSpec s!"{toHex (beBytes 32 bs)} {showOpenings ins} {showOpenings outs}" impl)
+      | .ok bs => (st, cmpSpec s!"{toHex (beBytes 32 bs)} {showOpenings ins} {showOpenings outs} {toHex (beBytes 32 off)}" impl)
       | _ => (st, cmpSpec "err" impl)
     | none => (st, .unknown)
   -- `partial_transaction(base, elems)` on a non-empty base transaction (`T;…` token = its body)
-  | ["xpartialb", base, steps] => match parseXStep base, parseXSteps steps with
-    | some (.initialTx bi bo), some steps =>
-      let (ins, outs, bs) := xPartialTransaction bi bo steps
+  | ["xpartialb", base, steps] => match parseXElem base, parseXElems steps with
+    | some ⟨.initialTx bi bo, boff⟩, some steps =>
+      let (ins, outs, bs, off) := xPartialTransactionO bi bo boff steps
       match bs with
-      | .ok bs => (st, cmpSpec s!"{toHex (beBytes 32 bs)} {showOpenings ins} {showOpenings outs}" impl)
+      | .ok bs => (st, cmpSpec s!"{toHex (beBytes 32 bs)} {showOpenings ins} {showOpenings outs} {toHex (beBytes 32 off)}" impl)
       | _ => (st, cmpSpec "err" impl)
     | _, _ => (st, .unknown)
   -- signatures (run `sigs`): honest ones verify (rule-fixed), negative controls do not
@@ -357,6 +372,20 @@ def handle (st : St) (args : List String) (impl : String) : St × Verdict :=
   | ["ckdsame", a, b] => match nat? a, nat? b with
     | some a, some b => (st, cmpSpec (if a == b then "same" else "differs") impl)
     | _, _ => (st, .unknown)
+  -- HMAC key and message of a derivation step, observed with a recording hasher
+  | ["ckdmsg", kind, w, cc, secret, pub] =>
+    match nat? w, parseHex cc, parseHex secret, parseHex pub with
+    | some w, some cc, some secret, some pub =>
+      let c := ChildNumber.ofU32 w
+      if kind == "priv" then (st, cmpModel s!"{toHex cc} {toHex (ckdPrivMessage secret pub c)}" impl)
+      else match ckdPubMessage pub c with
+        | some m => (st, cmpModel s!"{toHex cc} {toHex m}" impl)
+        | none => (st, cmpModel "err" impl)
+    | _, _, _, _ => (st, .unknown)
+  -- `new_master(seed)`: HMAC key "IamVoldemort", message = the whole seed
+  | ["mastermsg", seed] => match parseHex seed with
+    | some seed => (st, cmpModel s!"{toHex ("IamVoldemort".toUTF8.toList.map (·.toNat))} {toHex seed}" impl)
+    | none => (st, .unknown)
   | ["rewindhash", pubRoot] => match parseHex pubRoot with
     | some p => (st, cmpModel (toHex (viewRewindHash p)) impl)
     | none => (st, .unknown)
